@@ -31,12 +31,13 @@ var brMasks = map[string]string{
 	"C01": "111111111110",
 	"C02": "111111111110",
 	"C03": "000011100111",
+	"C04": "000001111111", // every use of a merkle proof: deposits and withdrawal finalisation
 	"C05": "000000011111",
 	"C06": "000001100111",
 	"C16": "111000000010",
 	"C18": "111111111111",
 	"C19": "111111111111",
-	"C20": "000010000010",
+	"C20": "000011100111", // parameters, and what a deposit credits under them (dequeued transactions)
 }
 
 func runBridge(rng *Rng, n int, st *Stats, param string) ([]string, []any) {
@@ -210,26 +211,37 @@ func (w *brWorld) history(nops int) {
 			pendDeps = pendDeps[1:]
 			txids[0] = cbDep.tx.Txid
 		}
+		// a block whose only transaction is that deposit: its merkle path is empty
+		lone := cbDep != nil && r.Chance(45)
+		if lone {
+			nfill = 0
+			w.st.Count("block-with-a-single-transaction")
+		}
 		for i := 0; i < nfill; i++ {
 			txids = append(txids, dsha(r.Bytes(16)))
 		}
 		var placed []*pendingDeposit
-		for _, d := range pendDeps {
-			d.index = len(txids)
-			txids = append(txids, d.tx.Txid)
-			placed = append(placed, d)
-		}
-		pendDeps = nil
 		type placedTx struct {
 			tx  *btcTx
 			idx int
 		}
 		var ptx []placedTx
-		for _, t := range mempool {
-			ptx = append(ptx, placedTx{t, len(txids)})
-			txids = append(txids, t.Txid)
+		if !lone {
+			for _, d := range pendDeps {
+				d.index = len(txids)
+				txids = append(txids, d.tx.Txid)
+				placed = append(placed, d)
+			}
+			pendDeps = nil
+			for _, t := range mempool {
+				ptx = append(ptx, placedTx{t, len(txids)})
+				txids = append(txids, t.Txid)
+			}
+			mempool = nil
+			if len(ptx) > 0 && len(txids)%2 == 1 {
+				w.st.Count("payout-last-in-odd-sized-block")
+			}
 		}
-		mempool = nil
 		blk := mkBlock(r, h, txids)
 		w.blocks[h] = blk
 		w.mined = h
@@ -411,6 +423,10 @@ func (w *brWorld) history(nops int) {
 					if d.index == 0 {
 						idx = 1 << uint(depth) // coinbase presented elsewhere
 					}
+				}
+				if depth == 0 && r.Chance(35) {
+					idx = uint32(1 + r.Intn(3)) // the only transaction of its block, presented elsewhere (empty path)
+					w.st.Count("single-tx-block-deposit-at-other-position")
 				}
 				var tweakCoq = "None"
 				if key.Type == 1 {
@@ -723,6 +739,9 @@ func (w *brWorld) history(nops int) {
 		// ------------------------------------------------ relayer membership and elections
 		default:
 			w.relayerOp()
+		}
+		if w.focus == "C02" && step == nops-1 {
+			importKeepsSequence(w.e, w.st, w.recs)
 		}
 		if w.focus == "C18" && (r.Chance(12) || step == nops-1) {
 			exportImportCheck(w.e, w.st, []string{"relayer", "bitcoin"}, w.recs)
